@@ -31,7 +31,7 @@ func (p ProfileSpec) parser() url.Parser {
 	case "Semantic":
 		return canonicalizer.Semantic
 	}
-	return canonicalizer.New(buildOptions(p.Opts)...)
+	return newProfile(buildOptions(p.Opts))
 }
 
 func (p ProfileSpec) String() string {
